@@ -703,6 +703,14 @@ func execCase(kind byte, body []byte) *core.Verdict {
 			}
 			fmt.Fprintf(&sb, "leaf l { type t%d; }\n}", c.Deep)
 			t = sb.String()
+		case "failing-grouping-chain": // grouping gI { container cI { uses gI+1; } } over a leaf of an unknown type: one error, N+2 lines of text
+			var sb strings.Builder
+			sb.WriteString("module m { namespace \"urn:m\"; prefix m;\n")
+			for i := 0; i < c.Deep; i++ {
+				fmt.Fprintf(&sb, "grouping g%d { container c%d { uses g%d; } }\n", i, i, i+1)
+			}
+			fmt.Fprintf(&sb, "grouping g%d { leaf l { type nosuch; } }\nuses g0;\n}", c.Deep)
+			t = sb.String()
 		case "typedef-chain", "grouping-chain", "identity-chain": // recursion along references between SIBLINGS
 			var sb strings.Builder
 			sb.WriteString("module m { namespace \"urn:m\"; prefix m;\n")
@@ -964,6 +972,7 @@ func check(r *core.Run) {
 		deep = append(deep, []byte(fmt.Sprintf(`{"deep":%d,"shape":"grouping-chain"}`, d)))
 	}
 	deep = append(deep, []byte(`{"deep":40,"shape":"failing-union-chain"}`)) // work must not double with every level
+	deep = append(deep, []byte(`{"deep":40,"shape":"failing-grouping-chain"}`), []byte(`{"deep":400,"shape":"failing-grouping-chain"}`))
 	for _, d := range []int{300, 2000} { // every identity lists all identities derived from it: the result itself is quadratic
 		deep = append(deep, []byte(fmt.Sprintf(`{"deep":%d,"shape":"identity-chain"}`, d)))
 	}
